@@ -131,6 +131,7 @@ func runC08(c *Ctx) {
 		})
 	}
 	r.Exactly("R2", "WriteString sites on the connection writer", nW, 1)
+	c.writerOnSocketRule("R2")
 	if writeFn != nil {
 		// the write function's callers pass a value received from the outbound queue (when the socket write sits
 		// in a helper that the write function calls with its own line parameter, look at the callers of that)
@@ -340,9 +341,97 @@ func runC20(c *Ctx) {
 			}
 		})
 	}
+	// text the password is extracted from is itself secret: every field from whose loads a value stored into
+	// Config.Pass is computed (say a server URL with credentials) is a source too
+	carriers := map[*types.Var]bool{}
+	{
+		seen := map[ssa.Value]bool{}
+		var back func(v ssa.Value, d int)
+		back = func(v ssa.Value, d int) {
+			if v == nil || seen[v] || d > 14 {
+				return
+			}
+			seen[v] = true
+			if fv, base := loadedField(v); fv != nil && fv != a.CfgPass && isStringType(fv.Type()) {
+				carriers[fv] = true
+				_ = base
+				return
+			}
+			switch t := v.(type) {
+			case *ssa.Call:
+				if t.Call.IsInvoke() {
+					back(t.Call.Value, d+1)
+				}
+				for _, arg := range t.Call.Args {
+					back(arg, d+1)
+				}
+				if callee := t.Call.StaticCallee(); callee != nil && c.InModuleFn(callee) {
+					funcInstrs(callee, func(in ssa.Instruction) {
+						if rt, ok := in.(*ssa.Return); ok {
+							for _, res := range rt.Results {
+								back(res, d+1)
+							}
+						}
+					})
+				}
+			case *ssa.Extract:
+				back(t.Tuple, d+1)
+			case *ssa.UnOp:
+				back(t.X, d+1)
+			case *ssa.FieldAddr:
+				back(t.X, d+1)
+			case *ssa.Field:
+				back(t.X, d+1)
+			case *ssa.IndexAddr:
+				back(t.X, d+1)
+			case *ssa.Index:
+				back(t.X, d+1)
+			case *ssa.Lookup:
+				back(t.X, d+1)
+			case *ssa.Slice:
+				back(t.X, d+1)
+			case *ssa.Phi:
+				for _, e := range t.Edges {
+					back(e, d+1)
+				}
+			case *ssa.BinOp:
+				back(t.X, d+1)
+				back(t.Y, d+1)
+			case *ssa.ChangeType:
+				back(t.X, d+1)
+			case *ssa.Convert:
+				back(t.X, d+1)
+			case *ssa.MakeInterface:
+				back(t.X, d+1)
+			case *ssa.TypeAssert:
+				back(t.X, d+1)
+			case *ssa.Parameter:
+				for _, o := range c.Origins(t) {
+					if o != ssa.Value(t) {
+						back(o, d+1)
+					}
+				}
+			case *ssa.Alloc:
+				if al, ok := cellOf(t); ok {
+					for _, st := range cellStores(al) {
+						back(st.Val, d+1)
+					}
+				}
+			}
+		}
+		for v := range stored {
+			back(v, 0)
+		}
+	}
+	var carrierNames []string
+	for fv := range carriers {
+		carrierNames = append(carrierNames, fv.Name())
+	}
+	sort.Strings(carrierNames)
+	r.Note("fields the stored password is extracted from (treated as password sources): %v", carrierNames)
 	fl.Source = func(v ssa.Value) *Abs {
 		isSrc := false
-		if fv, _ := loadedField(v); fv == a.CfgPass {
+		if fv, _ := loadedField(v); fv == a.CfgPass || (fv != nil && carriers[fv]) {
 			isSrc = true
 		}
 		if pr, ok := v.(*ssa.Parameter); ok && passFn != nil && pr.Parent() == passFn && len(passFn.Params) > 1 && pr == passFn.Params[1] {
